@@ -24,6 +24,12 @@ g_main / g_members / g_key / lock_name on random grids and coordinates.
 The model is the repaired protocol (o_reload = true: a tile that is_cached finds although load_tiles missed it is
 loaded again, finding F22); corpus/C08/race-*.json are the witness schedules of the race and are replayed first.
 
+Two deterministic families run under the oracle only (no model of these parts): `wms_family` puts a real WMSSource /
+WMSClient (fake HTTP client) behind the tile manager and gates the upstream call twice - the URL is built from the
+filled-in request object ('ubuild'), the URL is sent ('fetch') - for requests of different meta tiles (they share the
+client's request template but no lock); `live_lock_cleanup_family` lets the periodic lock directory clean-up run while a
+lock has been held for lock_timeout + 0..9 s (virtual clock) and then sends a request for the locked meta tile.
+
 Oracle (independent of the model, on what the implementation did): at most one upstream call per meta tile; every
 response tile carries the image of its own coordinate; the cache directory ends up holding exactly the valid tiles of
 the meta tiles that had to be created (plus the initial tiles), each with its own image; a lock attempt is refused only
@@ -59,7 +65,10 @@ LEVEL_NOTE = ('Trusted: Coq kernel, the hand-written model Creator.v, the schedu
               'bulk meta tiles of tiled sources are inside too (one upstream request per tile); outside: tiles removed during the run, an expire timestamp that moves past files written during the run, '
               'uncacheable or blank upstream answers, upstream errors, '
               'minimize_meta_requests, concurrent_tile_creators > 1 inside one request (each pool worker '
-              'behaves like one more requester), rescale_tiles, dimensions, sqlite/mbtiles back ends, lock timeouts.')
+              'behaves like one more requester), rescale_tiles, dimensions, sqlite/mbtiles back ends, lock timeouts.  '
+              'Under the oracle only (real code, chosen schedules, no model): the WMS client behind the source (request '
+              'template shared by concurrent upstream calls of different meta tiles) and the lock directory clean-up '
+              'while a lock older than the lock timeout is still held.')
 DESIGN_REF = 'DESIGN.md section 5, C08'
 RULE = ('case = one configuration (grid, meta size, initial cache, 2-6 request lists) run under one schedule to completion; '
         'non-trivial = at least two requesters needed the same meta tile and at least one of them was refused the lock or '
@@ -159,7 +168,9 @@ class World(object):
         self.uncacheable = set(tuple(t) for t in conf.get('uncacheable') or [])
         self.gate_cleanup = bool(conf.get('cleanup'))     # the periodic lock directory clean-up is run and gated
         self.lock_perms = conf.get('lock_perms')          # file_permissions of the tile locker (chmod of lock files gated)
-        self.lenient = self.kind != 'file' or self.vclock or bool(self.uncacheable) or self.gate_cleanup or bool(self.lock_perms)
+        self.wms = bool(conf.get('wms'))                  # the source is a real WMSSource / WMSClient (fake HTTP client)
+        self.lenient = (self.kind != 'file' or self.vclock or bool(self.uncacheable) or self.gate_cleanup
+                        or bool(self.lock_perms) or self.wms)
         self.substeps = self.kind == 'file-link'
         self.uniform = self.kind == 'file-link'
         self.procs = bool(conf.get('procs'))
@@ -175,6 +186,7 @@ class World(object):
         self.source = Source(self)
         if self.bulk:
             self.source.supports_meta_tiles = False      # a tiled source: bulk meta tiles, one upstream request per tile
+        self.tm_source = make_wms_source(self) if self.wms else self.source
         self.expire = bool(conf.get('expire'))
         self.expire_ts = int(time.time()) - 1000
         ms = list(conf['meta'])
@@ -182,7 +194,7 @@ class World(object):
         for _ in range(nworkers if self.procs else 1):
             cache = self.make_cache()
             locker = TileLocker(self.lock_dir, self.lock_timeout, cache.lock_cache_id, file_permissions=self.lock_perms)
-            tm = TileManager(self.grid, cache, [self.source], 'png', locker, image_opts=self.opts,
+            tm = TileManager(self.grid, cache, [self.tm_source], 'png', locker, image_opts=self.opts,
                              meta_size=ms, meta_buffer=0, concurrent_tile_creators=1, bulk_meta_tiles=self.bulk)
             if self.expire:
                 # an expire timestamp in the past: files written during the run are not expired
@@ -379,39 +391,96 @@ class Source(object):
 
     def get_map(self, query):
         from mapproxy.image import ImageSource
-        from PIL import Image
         w = self.world
         s = w.sched
         entry = s.gate('fetch') if s is not None else None
-        bbox, size = query.bbox, query.size
-        res = (bbox[2] - bbox[0]) / float(size[0])
-        level = min(range(len(w.conf['res'])), key=lambda i: abs(w.conf['res'][i] - res))
-        r = float(w.conf['res'][level])
-        gw, gh = w.sizes[level]
-        img = Image.new('RGB', size, (0, 0, 0))
-        blocks = []
-        for i in range(size[0] // TS):
-            for j in range(size[1] // TS):
-                # centre of the block in map units; j counts from the top of the image
-                cx = bbox[0] + (i + 0.5) * TS * r
-                cy = bbox[3] - (j + 0.5) * TS * r
-                tx = int(cx // (TS * r))
-                if w.conf['origin'] == 'ul':
-                    ty = int((w.conf['extent'][1] - cy) // (TS * r))
-                else:
-                    ty = int(cy // (TS * r))
-                if 0 <= tx < gw and 0 <= ty < gh:
-                    blocks.append((tx, ty, level))
-                    img.paste((50, 60, 70) if w.uniform else colour((tx, ty, level)),
-                              (i * TS, j * TS, (i + 1) * TS, (j + 1) * TS))
-        main = (min(b[0] for b in blocks), min(b[1] for b in blocks), level) if blocks else (-1, -1, level)
-        self.calls.append({'main': main, 'blocks': sorted(blocks), 'size': tuple(size)})
+        img, blocks, main = paint_answer(w, query.bbox, query.size)
+        self.calls.append({'main': main, 'blocks': sorted(blocks), 'size': tuple(query.size)})
         if entry is not None:
             entry['res'] = ('fetch', main)
             s.note_under_lock(entry, blocks)
         # tiles the upstream marks as not to be cached (error fill images, Cache-Control): only in bulk answers, per tile
         cacheable = not (w.bulk and any(b in w.uncacheable for b in blocks))
         return ImageSource(img, image_opts=w.opts, cacheable=cacheable)
+
+
+def paint_answer(w, bbox, size):
+    """the upstream's picture for bbox / size: every tile-sized block painted with the colour of its tile coordinate;
+    returns (image, covered tile coordinates, smallest covered coordinate)"""
+    from PIL import Image
+    res = (bbox[2] - bbox[0]) / float(size[0])
+    level = min(range(len(w.conf['res'])), key=lambda i: abs(w.conf['res'][i] - res))
+    r = float(w.conf['res'][level])
+    gw, gh = w.sizes[level]
+    img = Image.new('RGB', size, (0, 0, 0))
+    blocks = []
+    for i in range(size[0] // TS):
+        for j in range(size[1] // TS):
+            # centre of the block in map units; j counts from the top of the image
+            cx = bbox[0] + (i + 0.5) * TS * r
+            cy = bbox[3] - (j + 0.5) * TS * r
+            tx = int(cx // (TS * r))
+            if w.conf['origin'] == 'ul':
+                ty = int((w.conf['extent'][1] - cy) // (TS * r))
+            else:
+                ty = int(cy // (TS * r))
+            if 0 <= tx < gw and 0 <= ty < gh:
+                blocks.append((tx, ty, level))
+                img.paste((50, 60, 70) if w.uniform else colour((tx, ty, level)),
+                          (i * TS, j * TS, (i + 1) * TS, (j + 1) * TS))
+    main = (min(b[0] for b in blocks), min(b[1] for b in blocks), level) if blocks else (-1, -1, level)
+    return img, blocks, main
+
+
+class FakeHTTP(object):
+    """the HTTP client of a real WMSClient: answers the GetMap URL it is given (gated: this is the upstream call)"""
+
+    def __init__(self, world):
+        self.world = world
+
+    def open(self, url, data=None, method=None):
+        from urllib.parse import urlparse, parse_qs
+        w = self.world
+        s = w.sched
+        entry = s.gate('fetch') if s is not None else None
+        qs = dict((k.lower(), v[0]) for k, v in parse_qs(urlparse(url).query).items())
+        bbox = tuple(float(v) for v in qs['bbox'].split(','))
+        size = (int(qs['width']), int(qs['height']))
+        img, blocks, main = paint_answer(w, bbox, size)
+        w.source.calls.append({'main': main, 'blocks': sorted(blocks), 'size': size})
+        if entry is not None:
+            entry['res'] = ('fetch', main)
+            s.note_under_lock(entry, blocks)
+        buf = io.BytesIO()
+        img.save(buf, 'png')
+        resp = io.BytesIO(buf.getvalue())
+        resp.headers = {'Content-type': 'image/png'}
+        resp.code = 200
+        return resp
+
+
+def make_wms_source(world):
+    """a real WMSSource / WMSClient on a GetMap request template (one template object shared by all requests of the
+    source, as in a configured service).  Two accesses of the upstream call are gated: the URL is built from the request
+    object ('ubuild', at the entry of complete_url: the parameters of the query have been filled in) and the URL is
+    sent ('fetch')."""
+    from mapproxy.client.wms import WMSClient
+    from mapproxy.request.wms import create_request
+    from mapproxy.source.wms import WMSSource
+    req = create_request({'url': 'http://upstream.invalid/service?', 'layers': 'foo'}, {'format': 'image/png'})
+    base = type(req)
+
+    class GatedRequest(base):
+        @property
+        def complete_url(self_):
+            s = world.sched
+            entry = s.gate('ubuild') if s is not None else None
+            url = base.complete_url.fget(self_)
+            if entry is not None:
+                entry['res'] = ('ubuild',)
+            return url
+    req.__class__ = GatedRequest
+    return WMSSource(WMSClient(req, http_client=FakeHTTP(world)), image_opts=world.opts)
 
 
 # ----------------------------------------------------------------------------- scheduler
@@ -1284,6 +1353,57 @@ def sqlite_family(rng, count):
     return out
 
 
+def wms_family():
+    """a real WMSSource / WMSClient (one request template shared by all requests of the source) and requests for DIFFERENT
+    meta tiles: they hold different locks, so their upstream calls interleave freely.  Every requester is run until it has
+    filled in its upstream request and is about to build the URL, then they build and send one after the other.
+    Deterministic (independent of the seed)."""
+    out = []
+    v = 0
+    for meta in ((2, 2), (1, 1), (2, 1)):
+        for origin in ('ll', 'ul'):
+            for m in (2, 3):
+                conf = {'extent': (32, 32), 'res': (8, 4, 2, 1), 'origin': origin, 'meta': meta, 'wms': True, 'procs': False}
+                z = 3 if v % 2 == 0 else 2
+                n = 2 ** z
+                cells = [(x, y, z) for x in range(0, n, 2) for y in range(0, n, 2)]
+                picks = [cells[(v + 3 * i) % len(cells)] for i in range(m)]      # pairwise different meta tiles
+                reqs = [[c] for c in picks]
+                if v % 3 == 0:
+                    sched = [('until', i, 'ubuild') for i in range(m)] + [i for i in range(m) for _ in range(30)]
+                elif v % 3 == 1:
+                    sched = [('until', i, 'ubuild') for i in reversed(range(m))] + [i % m for i in range(60)]
+                else:
+                    sched = [('until', 0, 'fetch')] + [('until', i, 'ubuild') for i in range(1, m)] + [i % m for i in range(60)]
+                out.append((conf, reqs, [], sched, 'wms-source-different-meta-tiles'))
+                v += 1
+    # the same meta tile for everybody through the WMS source (one upstream request)
+    for meta in ((2, 2), (1, 1)):
+        conf = {'extent': (32, 32), 'res': (8, 4, 2, 1), 'origin': 'll', 'meta': meta, 'wms': True, 'procs': False}
+        out.append((conf, [[(2, 2, 3)], [(3, 2, 3)], [(2, 2, 3)]], [],
+                    [('until', 0, 'ubuild'), 1, 1, 1, 2, 2, 2] + [i % 3 for i in range(60)], 'wms-source-different-meta-tiles'))
+    return out
+
+
+def live_lock_cleanup_family():
+    """the periodic clean-up of the lock directory runs (in a request for meta tile B) while requester 0 has been holding
+    the lock of meta tile A for longer than the lock timeout but less than lock timeout + 10 s (slow upstream answer plus
+    splitting and storing): its lock file must survive, a later request for A must wait for it.  Virtual clock for
+    mapproxy.util.lock; lock files carry their real modification time (= start of the run).  Deterministic."""
+    out = []
+    for v, (meta, origin, age, procs) in enumerate([((1, 1), 'll', 9, False), ((2, 2), 'ul', 9, False), ((2, 1), 'll', 9, True),
+                                                     ((2, 2), 'll', 5, False), ((1, 1), 'ul', 2, True), ((2, 2), 'ul', 0, False)]):
+        conf = {'extent': (32, 32), 'res': (8, 4, 2, 1), 'origin': origin, 'cleanup': True, 'lock_timeout': 10,
+                'meta': meta, 'procs': procs}
+        a, b = ((0, 0, 3), (4, 2, 3)) if v % 2 == 0 else ((2, 2, 2), (0, 0, 2))
+        reqs = [[a], [b], [a]]
+        # 0 takes the lock of A and waits for the upstream; time passes; 1 creates B (its lock() call is the 50th of the
+        # process: clean-up); 2 asks for A: load, is_cached, lock attempts; then 0 finishes, then everybody
+        sched = [('until', 0, 'fetch'), ('tick', 10 + age), ('until', 1, 'done'), 2, 2, 2, 2, 2, 2] + [0] * 30 + [i % 3 for i in range(60)]
+        out.append((conf, reqs, [], sched, 'lockdir-cleanup-live-lock'))
+    return out
+
+
 def contention_family(rng, count):
     """everybody wants the same tile, scheduled round robin / in bursts"""
     out = []
@@ -1311,6 +1431,8 @@ def corpus_cases():
                 conf['uncacheable'] = [tuple(t) for t in d['conf']['uncacheable']]
             if d['conf'].get('cleanup'):
                 conf['cleanup'] = True
+            if d['conf'].get('wms'):
+                conf['wms'] = True
             if d['conf'].get('lock_perms'):
                 conf['lock_perms'] = d['conf']['lock_perms']
             if 'stale' in d:
@@ -1532,6 +1654,8 @@ def run_threads(ctx, reload_flag):
     todo += inplace_family(rng, ctx.n(12, 100))
     todo += lockperm_family(rng, ctx.n(20, 150))
     todo += mbtiles_family(rng, ctx.n(24, 144))
+    todo += wms_family()
+    todo += live_lock_cleanup_family()
 
     terms, descr = [], []
     reported = set()
@@ -1557,7 +1681,8 @@ def run_threads(ctx, reload_flag):
                                               'kind': conf.get('kind', 'file'), 'bulk': bool(conf.get('bulk')),
                                               'lock_timeout': conf.get('lock_timeout'),
                                               'uncacheable': [list(t) for t in conf.get('uncacheable') or []],
-                                              'cleanup': bool(conf.get('cleanup')), 'lock_perms': conf.get('lock_perms')},
+                                              'cleanup': bool(conf.get('cleanup')), 'lock_perms': conf.get('lock_perms'),
+                                              'wms': bool(conf.get('wms'))},
                    'stale': [list(t) for t in world.stale],
                    'requests': [[list(t) for t in r] for r in reqs], 'initial': [list(t) for t in initial],
                    'schedule': list(schedule), 'trace': compact_trace(trace),
@@ -1568,7 +1693,7 @@ def run_threads(ctx, reload_flag):
                      {'conf': rep['conf'], 'requests': rep['requests'], 'initial': rep['initial'], 'steps': len(trace),
                       'trace_head': compact_trace(trace[:30])})
             ctx.count('origin=' + origin.split(':')[0])
-            ctx.count('kind=' + world.kind + (',lock-file-permissions' if world.lock_perms else '') + (',uncacheable-tile' if world.uncacheable else '') + (',lockdir-cleanup' if world.gate_cleanup else '') + (',bulk-meta-tiles' if world.bulk else '') + (',lock-timeouts' if world.vclock else '') + (',own-objects-per-requester' if world.procs else '') + (',dimensions' if world.dims else ''))
+            ctx.count('kind=' + world.kind + (',lock-file-permissions' if world.lock_perms else '') + (',uncacheable-tile' if world.uncacheable else '') + (',lockdir-cleanup' if world.gate_cleanup else '') + (',wms-client' if world.wms else '') + (',bulk-meta-tiles' if world.bulk else '') + (',lock-timeouts' if world.vclock else '') + (',own-objects-per-requester' if world.procs else '') + (',dimensions' if world.dims else ''))
             ctx.count('mode=' + ('meta' if world.meta else 'single') + (',expire' if world.expire else ''))
             ctx.count('expired-tiles', len(world.stale))
             ctx.count('requesters=%d' % len(reqs))
